@@ -57,6 +57,20 @@ TRICKY = ['only_x', 'dropped', 'include_me', 'except1', 'asc_col', 'descr', 'by_
           'on_x', 'sorted', 'total_x', 'min_v', 'splits', 'timeslice_t', 'avg_a', 'parsed', 'fields_n', 'logfmt_l', 'if', 'by', 'as', 'on']
 
 
+def gen_ts(rng):
+    """an RFC 3339 UTC timestamp (the one date format the model reads), sometimes before 1970, sometimes with a fraction"""
+    import datetime
+    base = rng.choice([0, 0, 1583000000, 1583003600, 1583007200, -86400 * 365, 4102444800, -3600])
+    t = datetime.datetime(1970, 1, 1) + datetime.timedelta(seconds=base + rng.choice([0, 1, 59, 60, 3599, 3600, 86399, 1800]))
+    s = t.strftime('%Y-%m-%dT%H:%M:%S')
+    if rng.random() < 0.25:
+        s += '.' + rng.choice(['5', '250', '001', '123456', '999999999'])
+    return s + 'Z'
+
+
+DATE_EXPR = ('call', 'parseDate', [('col', 'ts', [])])
+
+
 def gen_row(rng, i, rich=True):
     """a row over the standard schema; fields go missing with some probability"""
     row = {'id': i}
@@ -79,6 +93,8 @@ def gen_row(rng, i, rich=True):
         row['arr'] = [scalar(rng, rich) for _ in range(rng.randint(0, 4))]
     if rng.random() < 0.4:
         row['obj'] = {'p': scalar(rng, rich), 'q': nested(rng, 2)}
+    if rng.random() < 0.5:
+        row['ts'] = gen_ts(rng)
     if rng.random() < 0.3:
         for name in rng.sample(TRICKY, rng.randint(1, 3)):
             row[name] = small_int(rng)
@@ -129,6 +145,8 @@ PREDICATES = ['isNull', 'isEmpty', 'isBlank', 'isNumeric']
 
 
 def num_expr(rng, depth, cols=None):
+    if cols is None and rng.random() < 0.04:
+        return DATE_EXPR          # a DateTime where a number is expected: must be treated as non-numeric
     if depth <= 0 or rng.random() < 0.3:
         return col_ref(rng, cols or NUM_COLS) if rng.random() < 0.7 else lit(rng.choice([0, 1, 2, 3, 10, 100, 2**62]))
     r = rng.random()
@@ -177,6 +195,16 @@ def str_expr(rng, depth, cols=None):
 
 def any_expr(rng, depth, cols=None):
     r = rng.random()
+    if cols is None and r < 0.05:
+        d = DATE_EXPR
+        k = rng.random()
+        if k < 0.3:
+            return d
+        if k < 0.6:
+            return ('ar', rng.choice(['add', 'sub']), d, lit(('dur', rng.choice([1000, 60 * 10**9, 3600 * 10**9, 86400 * 10**9]))))
+        if k < 0.8:
+            return ('ar', 'sub', d, d)
+        return ('cmp', rng.choice(['eq', 'lt', 'gte']), d, d)
     if r < 0.45:
         return num_expr(rng, depth, cols)
     if r < 0.7:
@@ -191,6 +219,9 @@ def any_expr(rng, depth, cols=None):
 def agg_fn(rng, cols=None, allow_pct=False):
     r = rng.random()
     numc = cols or NUM_COLS
+    if cols is None and rng.random() < 0.07:
+        # a DateTime argument: not a number, so it must be ignored by the numeric functions (and counted by distinct)
+        return (rng.choice(['sum', 'min', 'max', 'avg', 'distinct']), DATE_EXPR)
     if r < 0.25:
         return ('count', None if rng.random() < 0.6 else bool_expr(rng, 1, cols))
     if r < 0.42:
